@@ -924,11 +924,12 @@ CLEANUP:
 }
 
 
-/* With a current factorization a new column is simply appended as nonbasic and
- * the pricing data are kept for the next (dual) solve.  Row norms stay valid,
- * but the devex reference frames and the primal norms are indexed by column /
- * nonbasic position and have the old length: drop them, they are rebuilt when
- * the next phase starts. */
+/* With a current factorization a new column is simply appended as nonbasic (a
+ * new row brings a new basic logical) and the pricing data are kept for the
+ * next (dual) solve.  Dual steepest-edge row norms are carried over by the
+ * callers, but the devex norms and reference frames and the primal norms are
+ * indexed by row / column / nonbasic position and have the old length: drop
+ * them, they are rebuilt when the next phase starts. */
 static void free_column_pricing (
 	EGLPNUM_TYPENAME_QSdata * p)
 {
@@ -1063,6 +1064,7 @@ EGLPNUM_TYPENAME_QSLIB_INTERFACE int EGLPNUM_TYPENAME_QSadd_ranged_rows (
 	rval = check_qsdata_pointer (p);
 	CHECKRVALG (rval, CLEANUP);
 
+	free_column_pricing (p);
 	rval = EGLPNUM_TYPENAME_ILLlib_addrows (p->lp, p->basis, num, rmatcnt, rmatbeg,
 												 rmatind, rmatval, rhs, sense, range,
 												 names, &(p->factorok));
@@ -1134,6 +1136,7 @@ EGLPNUM_TYPENAME_QSLIB_INTERFACE int EGLPNUM_TYPENAME_QSadd_rows (
 	rval = check_qsdata_pointer (p);
 	CHECKRVALG (rval, CLEANUP);
 
+	free_column_pricing (p);
 	rval = EGLPNUM_TYPENAME_ILLlib_addrows (p->lp, p->basis, num, rmatcnt, rmatbeg,
 												 rmatind, rmatval, rhs, sense, 0, names,
 												 &(p->factorok));
